@@ -89,7 +89,7 @@ def gen_dense(rng, thorough):
 def gen_cases(ctx):
     for inp in ctx.corpus():
         yield inp
-    n = ctx.n(400, 8000)
+    n = ctx.n(400, 5000)
     for i in range(n):
         rng = ctx.rng("dense", i)
         yield gen_dense(rng, ctx.thorough)
